@@ -402,6 +402,26 @@ def coerce_rule():
     return ("?", "?", "?", "?")
 
 
+def setitem_index_slot() -> str:
+    """`check_place_assignable`: how the INDEX input of the expected `__setitem__` signature is written:
+    'fresh' (`ExistentialTypeVar.fresh(...)`), 'item.ty', or the unparsed expression"""
+    tree = ast.parse(_read(EXPR_CHECKER))
+    for fn in tree.body:
+        if isinstance(fn, ast.FunctionDef) and fn.name == "check_place_assignable":
+            for node in ast.walk(fn):
+                if isinstance(node, ast.Assign) and isinstance(node.targets[0], ast.Name) and node.targets[0].id == "exp_sig":
+                    call = node.value
+                    if isinstance(call, ast.Call) and call.args and isinstance(call.args[0], ast.List) and len(call.args[0].elts) == 3:
+                        idx = call.args[0].elts[1]
+                        if isinstance(idx, ast.Call) and idx.args:
+                            t = idx.args[0]
+                            src = ast.unparse(t)
+                            if isinstance(t, ast.Call) and src.startswith("ExistentialTypeVar.fresh"):
+                                return "fresh"
+                            return src
+    return "?"
+
+
 def lean_str(s: str) -> str:
     return '"' + s.replace("\\", "\\\\").replace('"', '\\"').replace("\n", "\\n") + '"'
 
